@@ -136,7 +136,7 @@ var c07dec = gen.Register(&gen.Check[caseC07dec]{
 		c.Via = rapid.SampledFrom([]string{"decode", "decode", "unmarshal", "hex"}).Draw(t, "via")
 		if c.Via == "hex" {
 			txt := c.Data
-			switch rapid.IntRange(0, 5).Draw(t, "hexKind") {
+			switch gen.Pick(t, "hexKind", 8) {
 			case 0:
 				txt = strings.ToUpper(txt)
 			case 1: // mixed case
@@ -147,6 +147,16 @@ var c07dec = gen.Register(&gen.Check[caseC07dec]{
 					}
 				}
 				txt = string(b)
+			case 4: // two hex digits replaced by one 2-byte rune (same byte length) whose low code-point byte is a hex digit
+				if len(txt) >= 2 {
+					i := 2 * rapid.IntRange(0, len(txt)/2-1).Draw(t, "upos")
+					txt = txt[:i] + rapid.SampledFrom([]string{"\u0130", "\u0141", "\u0166", "\u0361"}).Draw(t, "urune") + txt[i+2:]
+				}
+			case 5: // three hex digits replaced by one 3-byte rune (keeps the byte length)
+				if len(txt) >= 4 {
+					i := rapid.IntRange(0, len(txt)-3).Draw(t, "upos3")
+					txt = txt[:i] + rapid.SampledFrom([]string{"\u3066", "\u3041", "\uff10"}).Draw(t, "urune3") + txt[i+3:]
+				}
 			case 2: // odd length
 				txt += "0"
 			case 3: // a non-hex rune
